@@ -89,6 +89,7 @@ class Term:
         self.scrolled = z3.BoolVal(False)
         self.placements = []  # dicts
         self.deletes = []
+        self.gfx_log = []  # ("place", placement index) / ("delete", command dict, cursor col, cursor row), in arrival order
         self.kitty_pending = None  # keys of a chunked transmission in progress
         self.kitty_chunks = []  # per transmission: list of (m term/int, payload parts)
         self.transmissions = []  # completed: dict(keys=..., chunks=[...])
@@ -435,6 +436,7 @@ class Term:
         act = self._kv_str(keys.get("a", ["T"] if first else []))
         if act == "d":
             self.deletes.append({k: (self._kv_str(v) if k in ("a", "d") else self._kv_num(v)) for k, v in keys.items()})
+            self.gfx_log.append(("delete", self.deletes[-1], zmin(self.col, self.W - 1), self.row))
             return
         if act == "q":
             return
@@ -478,6 +480,31 @@ class Term:
         self.events.append(("kitty placement moves the cursor (C != 1)", simp(C != 1)))
         self._place("kitty", c, r, keys)
 
+    def survives(self, idx):
+        """z3 condition: kitty placement `idx` is still on screen, i.e. no later delete command applied to it
+        (d=A/a all placements, d=Z/z by z-index, d=C/c placements intersecting the cursor cell)"""
+        p = self.placements[idx]
+        pz = self._kv_num(p["keys"]["z"]) if "z" in p["keys"] else z3.IntVal(0)
+        conds, seen = [], False
+        for ev in self.gfx_log:
+            if ev[0] == "place":
+                seen = seen or ev[1] == idx
+                continue
+            if not seen:
+                continue
+            _, cmd, ccol, crow = ev
+            d = (cmd.get("d") or "a")
+            if d in ("A", "a"):
+                applies = z3.BoolVal(True)
+            elif d in ("Z", "z"):
+                applies = cmd["z"] == pz if cmd.get("z") is not None else z3.BoolVal(False)
+            elif d in ("C", "c"):
+                applies = z3.And(ccol >= p["col"], ccol < p["col"] + p["cols"], crow >= p["row"], crow < p["row"] + p["rows"])
+            else:
+                raise EngineLimit(f"kitty delete mode {d!r}")
+            conds.append(z3.Not(applies))
+        return simp(z3.And(*conds)) if conds else z3.BoolVal(True)
+
     def _place(self, kind, c, r, keys):
         cur = zmin(self.col, self.W - 1)
         idx = len(self.placements)
@@ -485,6 +512,7 @@ class Term:
         self.events.append((f"{kind} image has a non-positive cell size", simp(z3.Or(c < 1, r < 1))))
         self.events.append((f"{kind} image extends below the screen (scroll)", simp(self.row + r - 1 > self.top + self.H - 1)))
         self.placements.append({"kind": kind, "col": cur, "row": self.row, "cols": c, "rows": r, "keys": keys, "index": idx})
+        self.gfx_log.append(("place", idx))
         self._touch(
             z3.And(self.px >= cur, self.px < cur + c, self.py >= self.row, self.py < self.row + r),
             GRAPHIC, Colour(), Colour(), image=idx, dx=simp(self.px - cur), dy=simp(self.py - self.row),
